@@ -327,6 +327,21 @@ NoEligibleMeansNone ==
 \* a trait carried by the account on the OTHER chain never qualifies
 MevIsPerChain ==
   \A c \in Chains : \A v \in Eligible(c, TRUE) : MevOn(snap, v, c)
+\* all of the above with the ranking evaluated once per request class (same conjuncts; big exhaustive configuration)
+AssignAll ==
+  \A c \in Chains, mv \in BOOLEAN :
+    LET fe == FeeTab(c)
+        E == EligibleT(snap, fe, perf, c, mv)
+        sc == ScoresT(snap, fe, perf)
+        r == RankSeq(sc, E) IN
+    /\ Len(r) = Cardinality(E) /\ {r[i] : i \in DOMAIN r} = E
+    /\ \A i, j \in DOMAIN r : i < j => Better(sc, r[i], r[j])
+    /\ (E = {}) <=> ~\E p \in Vals : PickOK(snap, fe, perf, c, p, mv)
+    /\ (mv => \A v \in E : MevOn(snap, v, c))
+    /\ \A i \in DOMAIN r : i <= TopK => \E t \in Times : PickFrom(r, t) = r[i]
+    /\ r # <<>> => \A t \in Times :
+          /\ PickOK(snap, fe, perf, c, PickFrom(r, t), mv)
+          /\ Cardinality({w \in E : Better(sc, w, PickFrom(r, t))}) < TopK
 \* action level: what an Assign step does to the queues
 RemoteAddressFromSnapshot ==
   [][res' = "assigned" =>
